@@ -375,6 +375,9 @@ func c01Body(c *ev.Ctx) {
 		r.run(fmt.Sprintf("F%d full InsertionMbuCircuit d=1 b=1", p), cases)
 	}
 
+	// ---- part 2b: every depth x batch-size set, defects in the last slot / top level ----
+	c01DimSweep(r, quick)
+
 	// ---- part 3: BN254, all tree states over {0,1,r-1}, operation menu ----------
 	depths := []int{1, 2}
 	for _, d := range depths {
